@@ -218,8 +218,9 @@ Json plan_to_json(const Plan &p) {
     for (const FileSpec &f : p.world.files) {
       Json fo = Json::Obj();
       fo.set("path", f.path);
-      static const char *kn[] = {"regular", "no_permission", "directory", "symlink"};  // symlink: data is the target's path
-      fo.set("kind", kn[f.kind % 4]);
+      // symlink: data is the target's path; regular_other_owner: readable, but owned by another user
+      static const char *kn[] = {"regular", "no_permission", "directory", "symlink", "regular_other_owner"};
+      fo.set("kind", kn[f.kind % 5]);
       fo.set("data", f.data);
       fa.push(fo);
     }
@@ -286,7 +287,7 @@ bool plan_from_json(const Json &j, Plan &p, std::string *err) {
         FileSpec f;
         f.path = fo.str("path");
         std::string k = fo.str("kind", "regular");
-        f.kind = k == "no_permission" ? 1 : k == "directory" ? 2 : k == "symlink" ? 3 : 0;
+        f.kind = k == "no_permission" ? 1 : k == "directory" ? 2 : k == "symlink" ? 3 : k == "regular_other_owner" ? 4 : 0;
         f.data = fo.str("data");
         p.world.files.push_back(f);
       }
